@@ -202,21 +202,32 @@ def analyze(template: BoundTemplate, *, include_partials: bool) -> TemplateAnaly
                 else str(partial.name.evaluate(static_context))
             )
 
-            # If we've seen this partial before but with different arguments,
-            # we might want to visit it again but only capture globals.
+            # Which names are global inside the partial depends on the names it can
+            # see: those bound by the tag and, unless its scope is isolated, all
+            # those in scope at the call site. If we've seen this partial before
+            # but with different names in scope, visit it again but only capture
+            # globals.
+            in_scope = set(partial.in_scope)
+            visible = (
+                frozenset(in_scope)
+                if partial.scope == PartialScope.ISOLATED
+                else frozenset(in_scope).union(*scope.stack)
+            )
+            visit_key = hash((partial.key, visible))
+
             _just_globals = partial_name in seen
-            if partial.key in seen[partial_name]:
+            if visit_key in seen[partial_name]:
                 # We've visited this partial template before with the same
-                # arguments.
+                # arguments and the same names in scope.
                 return
 
-            seen[partial_name].add(partial.key)
+            seen[partial_name].add(visit_key)
             partial_name = partial_name or template_name
 
             partial_scope = (
-                _StaticScope(set(partial.in_scope))
+                _StaticScope(in_scope)
                 if partial.scope == PartialScope.ISOLATED
-                else root_scope.push(set(partial.in_scope))
+                else scope.push(in_scope)
             )
 
             for child in node.children(
@@ -323,21 +334,32 @@ async def analyze_async(
                 else str(partial.name.evaluate(static_context))
             )
 
-            # If we've seen this partial before but with different arguments,
-            # we might want to visit it again but only capture globals.
+            # Which names are global inside the partial depends on the names it can
+            # see: those bound by the tag and, unless its scope is isolated, all
+            # those in scope at the call site. If we've seen this partial before
+            # but with different names in scope, visit it again but only capture
+            # globals.
+            in_scope = set(partial.in_scope)
+            visible = (
+                frozenset(in_scope)
+                if partial.scope == PartialScope.ISOLATED
+                else frozenset(in_scope).union(*scope.stack)
+            )
+            visit_key = hash((partial.key, visible))
+
             _just_globals = partial_name in seen
-            if partial.key in seen[partial_name]:
+            if visit_key in seen[partial_name]:
                 # We've visited this partial template before with the same
-                # arguments.
+                # arguments and the same names in scope.
                 return
 
-            seen[partial_name].add(partial.key)
+            seen[partial_name].add(visit_key)
             partial_name = partial_name or template_name
 
             partial_scope = (
-                _StaticScope(set(partial.in_scope))
+                _StaticScope(in_scope)
                 if partial.scope == PartialScope.ISOLATED
-                else root_scope.push(set(partial.in_scope))
+                else scope.push(in_scope)
             )
 
             for child in await node.children_async(
